@@ -16,7 +16,7 @@
    PARTIAL: quoted values with escapes, white space and folds around "=" and the separators, empty
    list items, the white-space-then-token terminator, and the converse direction (accepted => of
    that shape) are not proved: render/parse oracle + correspondence (chunked too). *)
-From Sipsp Require Import Harness Misc HdrSpec TokSpec UListSpec UHListSpec TokEoi TokItem UListGen.
+From Sipsp Require Import Harness Misc HdrSpec TokSpec UListSpec UHListSpec TokEoi TokItem UListGen TokLead.
 Theorem C17_character_set : forall up c, tok_allowed up c = true <-> In c (allowed_set up).
 Proof. exact tok_allowed_spec. Qed.
 Theorem C17_bad_byte_in_name_rejected_there : forall f (rest : list byte) i s c,
@@ -257,7 +257,32 @@ Proof.
     constructor.
   - vm_compute. repeat split.
 Qed.
+(* ---- empty list items and white space before the name are skipped ------------------------------------------------------------------------ *)
+Theorem C17_empty_items_and_leading_white_space_skipped : forall flags L (junk : list byte) c r, lead flags L -> is_ws c = false ->
+  (c =? tf_sep (tp_decode flags)) = false ->
+  parse_tokparam flags (junk ++ L ++ c :: r) (nnat (length junk)) tokparam0
+  = parse_tokparam flags ((junk ++ L) ++ c :: r) (nnat (length (junk ++ L))) tokparam0.
+Proof. exact lead_skipped. Qed.
+(* the prefixes: separators (empty items) and white-space runs that are followed by a separator or end the prefix *)
+Theorem C17_lead_means : forall flags L, lead flags L <->
+  L = [] \/ (exists L', L = tf_sep (tp_decode flags) :: L' /\ lead flags L') \/
+  (exists w L', L = w ++ tf_sep (tp_decode flags) :: L' /\ wsrun flags w /\ lead flags L') \/ wsrun flags L.
+Proof.
+  intros flags L. split.
+  - intros H. destruct H as [|L' H|w L' Hw H|w Hw]; [left; reflexivity|right; left; eauto|right; right; left; eauto|right; right; right; exact Hw].
+  - intros [->|[(L' & -> & H)|[(w & L' & -> & Hw & H)|Hw]]]; [constructor|constructor; exact H|apply lead_ws_sep; assumption|apply lead_ws_end; exact Hw].
+Qed.
+(* satisfiable: ";; ;a=1;" - two empty items, a blank, another empty item, then the parameter *)
+Example C17_lead_example :
+  lead 0 [59;59;32;59] /\
+  parse_tokparam 0 ([59;59;32;59] ++ [97;61;49;59;98]) 0 tokparam0 = Done 8 EMoreValues (mktokparam (mkpf 4 3) (mkpf 4 1) (mkpf 6 1) PInitNxtVal).
+Proof.
+  split; [|vm_compute; reflexivity].
+  apply lead_sep. apply lead_sep. apply (lead_ws_sep 0 [32] []); [|constructor].
+  apply wsrun_blanks; [discriminate|repeat constructor].
+Qed.
 Print Assumptions C17_param_then_next_param_at_any_offset.
+Print Assumptions C17_empty_items_and_leading_white_space_skipped.
 Print Assumptions C17_uri_parameter_list_general_items.
 Print Assumptions C17_item_ended_by_terminator.
 Print Assumptions C17_item_then_next_item.
